@@ -142,10 +142,10 @@ def corner_calls(M, rec, rng, reps):
         which = rng.choice(("ramp", "ramp", "simple", "main"))
         rec.count("corner_calls")
         if which == "ramp":
-            E.OriginsEngine.get_ramp_flow(s(d), s(w), C, s(r_), rmax, s(r1), rc, T, rng.choice(("in", "out")))
+            E.OriginsEngine.get_ramp_flow(s(d), s(w), C, s(r_), rmax, s(r1), rc, T, "".join(list(rng.choice(("in", "out")))))
         elif which == "simple":
             qd = rng.choice((0.0, math.inf, capnow, d + w / T, rng.uniform(0, 2 * C)))
-            E.OriginsEngine.get_simplifiedramp_flow(s(qd), s(d), s(w), C, rmax, s(r1), rc, T, "limited")
+            E.OriginsEngine.get_simplifiedramp_flow(s(qd), s(d), s(w), C, rmax, s(r1), rc, T, "".join(list("limited")))
         else:
             a = rng.uniform(1.0, 3.5)
             vf = rng.uniform(90, 130)
